@@ -331,8 +331,10 @@ def run_check(pid, tier, seed):
             if h['status'] == 'error':
                 say(pid, 'UNDECIDED (exit 2): Kani harness %s did not run: %s' % (h['name'], h['detail'][-400:]))
                 return 2
-    kani_fail = [h for h in kani_res if h['status'] == 'failed' and h['role'] == 'complete']
-    kani_bounded_fail = [h for h in kani_res if h['status'] == 'failed' and h['role'] == 'bounded']
+    # a failed property harness is a concrete failing input found by CBMC, whether its domain is complete or bounded (a bounded one that
+    # passes is never counted as proved); a failed harness that validates an ASSUMED specification means the assumption is wrong: exit 2
+    kani_fail = [h for h in kani_res if h['status'] == 'failed' and (h['role'] == 'complete' or h.get('about') == 'property')]
+    kani_bounded_fail = [h for h in kani_res if h['status'] == 'failed' and h['role'] == 'bounded' and h.get('about') != 'property']
     if kani_bounded_fail:
         say(pid, 'UNDECIDED (exit 2): a bounded Kani harness that validates an assumed specification failed: %s' % [h['name'] for h in kani_bounded_fail])
         return 2
@@ -465,13 +467,22 @@ def run_check(pid, tier, seed):
         say(pid, 'UNDECIDED (exit 2)')
         rc = 2
     if violation:
-        rp = concretise.make_replay(pid, mine, kani_fail, meta, REPO, scratch, say, tier, standin_hit)
+        kani_cex = []
+        for h in kani_fail[:1]:
+            try:
+                reg = [x for x in kani_run.registry() if x['name'] == h['name']]
+                cx = kani_run.playback(reg[0], REPO, scratch, say) if reg else None
+                if cx:
+                    kani_cex.append(cx)
+            except Exception as e:  # noqa -- decoration only
+                say(pid, 'kani playback did not run: %s' % e)
+        rp = concretise.make_replay(pid, mine, kani_fail, meta, REPO, scratch, say, tier, standin_hit, kani_cex)
         evidence['coverage']['replay'] = rp['path']
         suffix = '' if rp['found_input'] else ' no-failing-input-found'
         for n in sorted(mine):
             say(pid, 'failed obligation: %s  (%s)' % (n, mine[n]['message']))
         for h in kani_fail:
-            say(pid, 'failed Kani complete harness: %s' % h['name'])
+            say(pid, 'failed Kani %s harness: %s' % (h['role'], h['name']))
         print('VIOLATION property=%s replay=%s%s' % (pid, rp['path'], suffix), flush=True)
         rc = 1
     for l in known_lines:
